@@ -18,6 +18,7 @@ import (
 	"fmt"
 	"github.com/echovault/sugardb/internal"
 	"github.com/echovault/sugardb/internal/clock"
+	"github.com/echovault/sugardb/internal/verifhook"
 	"github.com/tidwall/resp"
 	"io"
 	"log"
@@ -147,22 +148,26 @@ func (store *Store) Write(database int, command []byte) error {
 	// If the database parameter is different from the current database index,
 	// log the SELECT command before logging the incoming command.
 	// This allows us to switch databases appropriately when restoring the state on startup.
+	verifhook.Point("aof.log.write.begin")
 	if database != store.currentDatabase {
 		_, err := store.rw.Write([]byte(fmt.Sprintf("*2\r\n$6\r\nSELECT\r\n$1\r\n%s\r\n", strconv.Itoa(database))))
 		if err != nil {
 			return fmt.Errorf("log select error: %+v", err)
 		}
 		store.currentDatabase = database
+		verifhook.Point("aof.log.write.select.done")
 	}
 
 	if _, err := store.rw.Write(command); err != nil {
 		return fmt.Errorf("log command error: %+v", err)
 	}
+	verifhook.Point("aof.log.write.command.done")
 
 	if strings.EqualFold(store.strategy, "always") {
 		if err := store.Sync(); err != nil {
 			return fmt.Errorf("log file sync error: %+v", err)
 		}
+		verifhook.Point("aof.log.write.sync.done")
 	}
 
 	return nil
@@ -227,9 +232,11 @@ func (store *Store) Truncate() error {
 	store.mut.Lock()
 	defer store.mut.Unlock()
 
+	verifhook.Point("aof.log.truncate.begin")
 	if err := store.rw.Truncate(0); err != nil {
 		return fmt.Errorf("truncate: truncate error: %+v", err)
 	}
+	verifhook.Point("aof.log.truncate.truncate.done")
 
 	// Seek to the beginning of the file after truncating.
 	if _, err := store.rw.Seek(0, 0); err != nil {
@@ -242,10 +249,12 @@ func (store *Store) Truncate() error {
 	if err != nil {
 		return fmt.Errorf("truncate: log select error: %+v", err)
 	}
+	verifhook.Point("aof.log.truncate.header.done")
 	// Immediately sync the file.
 	if err = store.rw.Sync(); err != nil {
 		return fmt.Errorf("truncate: sync error: %+v", err)
 	}
+	verifhook.Point("aof.log.truncate.sync.done")
 
 	return nil
 }
